@@ -55,6 +55,10 @@ def cases(tier, seed):
         if i % 5 == 2:      # very far from the origin: anything derived from geo_high - geo_low loses digits
             g["origin"] = [3.0e8, -7.0e8, 1.1e9]
         cs.append({"gen": g, "sel_seed": seed * 61 + i, "poison_covered": i % 4 == 1, "fmt": dict(ref_ratio_extra=rng.choice([0, 0, 1, 3]), trailing_blank=rng.random() < 0.7, close_blank=rng.random() < 0.3, floatfmt=rng.choice(["repr", "17g"]))})
+    # scale: 64**3 coarse boxes (4096 cells of the occupancy map each), one of them refined by an interior patch only
+    for k in range(2 if tier == "quick" else 6):
+        cs.append({"scale": "coarse64", "gen": dict(seed=seed * 7 + 9190 + k, names=["rho", "volFrac", "q"], payload="positive"),
+                   "sel_seed": seed * 61 + 9190 + k, "poison_covered": False, "fmt": {}})
     return workload.add_reach_store(cs)
 
 
